@@ -166,7 +166,7 @@ pub fn run_cell(cell: &Cell, seed: u64) -> Option<ExactOutcome> {
 
 pub fn cells(ctx: &Ctx) -> Vec<Cell> {
     let mut v = vec![];
-    let k_rand = if ctx.thorough() { 480 } else { 10 };
+    let k_rand = if ctx.thorough() { 480 } else { 20 };
     for &fam in SINGLE_DRAW.iter() {
         let g = grid(fam, Ft::F32);
         // every shape value also at the canonical location/scale, where the bound is tightest
